@@ -447,3 +447,35 @@ package coordinator
 //@   at after len#1: ghost round_is_fresh = true
 //@   at after Group.Wait#1: ghost round_is_fresh = false
 //@   call Group.Go#1 requires a_retry_round_collects_into_an_empty_list: round_is_fresh
+//@ func (*remoteShardGroup).FieldDimensions
+//@   props C05
+//@   nosafety
+//@   callee_requires_assumed
+//@   ghost round_is_fresh bool = false
+//@   at after len#1: ghost round_is_fresh = true
+//@   at after Group.Wait#1: ghost round_is_fresh = false
+//@   call Group.Go#1 requires a_retry_round_collects_into_an_empty_list: round_is_fresh
+//@ func (*remoteShardGroup).CreateIterator
+//@   props C05
+//@   nosafety
+//@   callee_requires_assumed
+//@   ghost round_is_fresh bool = false
+//@   at after len#1: ghost round_is_fresh = true
+//@   at after Group.Wait#1: ghost round_is_fresh = false
+//@   call Group.Go#1 requires a_retry_round_collects_into_an_empty_list: round_is_fresh
+//@ func (*remoteShardGroup).ReadFilter
+//@   props C05
+//@   nosafety
+//@   callee_requires_assumed
+//@   ghost round_is_fresh bool = false
+//@   at after len#1: ghost round_is_fresh = true
+//@   at after Group.Wait#1: ghost round_is_fresh = false
+//@   call Group.Go#1 requires a_retry_round_collects_into_an_empty_list: round_is_fresh
+//@ func (*remoteShardGroup).ReadGroup
+//@   props C05
+//@   nosafety
+//@   callee_requires_assumed
+//@   ghost round_is_fresh bool = false
+//@   at after len#1: ghost round_is_fresh = true
+//@   at after Group.Wait#1: ghost round_is_fresh = false
+//@   call Group.Go#1 requires a_retry_round_collects_into_an_empty_list: round_is_fresh
